@@ -38,6 +38,20 @@ func runC08(c *Ctx) {
 	}
 	s.checkFailedShutdownCommandKills(c)
 	s.checkDaemonRelease(c, "daemon-released-after-configured-stop")
+	{
+		rR := c.Rule("rename-unregisters-first", "the function that moves a process to another name removes the instance from the registry of running instances before it changes the instance's name and registers it again afterwards")
+		nR := 0
+		for _, f := range p.FuncsOfPkg("app") {
+			if s.isRenameFn(f) {
+				nR++
+				c.Touch(f)
+				s.checkRenameUnregistersFirst(c, rR, f)
+			}
+		}
+		if nR == 0 {
+			c.Bad(rR, "rename:function", "", "no rename function found")
+		}
+	}
 	ls := p.Locksets(s.Runner)
 	spawnSite := CallOfFn("Spawn", s.Spawns...)
 	spawnDeep := p.Deep(spawnSite)
